@@ -238,6 +238,7 @@ def explore(ctx):
     infinity_stream(ctx)
     cc.infinity_tie_stream(ctx, 200 if ctx.quick else 2000, 'c01_inf_tie')
     huge_integer_threshold_stream(ctx)
+    cc.rounding_tie(ctx, 400 if ctx.quick else 4000, 'c01_rounding')
     rng = ctx.rng('floatthr')
     for arr, t, kind in float_threshold_cases(rng, ctx.quick) + int_threshold_cases(rng, ctx.quick) + bigint_threshold_cases(rng, ctx.quick):
         try:
